@@ -23,6 +23,7 @@ type fault struct {
 	Kind  string
 	Text  string // LF line ends; ends with "\n"
 	Line  int    // 0-based line inside Text on which the diagnostic must be reported
+	Span  int    // the faulty construct itself spans Line..Line+Span: any of these lines is accepted
 	Nonce string // text that the diagnostic's message must contain ("" = learn from baseline)
 	Parse bool   // a parse-time fault (nothing runs)
 	AtEOF bool   // the fault is the last thing in the file and is detected at end of input:
@@ -246,6 +247,8 @@ var faultKinds = []string{
 	"undef-class-new", "undef-class-static",
 	"eof-class", "eof-func-paren", "eof-call-paren", "eof-new",
 	"interp-method", "mlinterp-dq-method", "mlinterp-heredoc-method", "mlinterp-dq-call",
+	"abstract-new", "ctor-throw", "static-undef-func", "array-ml-undef-func", "catch-rethrow",
+	"arrow-undef-func", "prop-type-mismatch", "chain-ml-prop", "generator-throw",
 }
 
 func (g *genState) fault(kind string) *fault {
@@ -332,6 +335,41 @@ func (g *genState) fault(kind string) *fault {
 	case "undef-class-static":
 		f.Nonce = "NoClass" + n
 		f.Text = fmt.Sprintf("$sc = %s::bar();\n", f.Nonce)
+	case "abstract-new":
+		f.Nonce = "AB" + n
+		f.Text = fmt.Sprintf("abstract class %s { }\n$ab = new %s();\n", f.Nonce, f.Nonce)
+		f.Line = 1
+	case "ctor-throw":
+		f.Nonce = "boom-" + n
+		f.Text = fmt.Sprintf("class CC%s {\n%sfunction __construct() {\n%s%sthrow new Exception(\"%s\");\n%s}\n}\n$cc = new CC%s();\n", n, in, in, in, f.Nonce, in, n)
+		f.Line = 2
+	case "static-undef-func":
+		f.Nonce = "nofn_" + n
+		f.Text = fmt.Sprintf("class CS%s {\n%sstatic function s() {\n%s%sreturn %s();\n%s}\n}\nCS%s::s();\n", n, in, in, in, f.Nonce, in, n)
+		f.Line = 2
+	case "array-ml-undef-func":
+		f.Nonce = "nofn_" + n
+		f.Text = fmt.Sprintf("$am = [1, 2,\n%s3, %s(),\n%s5];\n", in, f.Nonce, in)
+		f.Line = 1
+	case "catch-rethrow":
+		f.Nonce = "outer-" + n
+		f.Text = fmt.Sprintf("try {\n%sthrow new Exception(\"inner\");\n} catch (Exception $ex) {\n%sthrow new RuntimeException(\"%s\");\n}\n", in, in, f.Nonce)
+		f.Line = 3
+	case "arrow-undef-func":
+		f.Nonce = "nofn_" + n
+		f.Text = fmt.Sprintf("$af = fn($x) => %s($x);\n$af(1);\n", f.Nonce)
+	case "prop-type-mismatch":
+		f.Nonce = "TP" + n
+		f.Text = fmt.Sprintf("class %s { public int $n = 1; }\n$tp = new %s();\n$tp->n = 'str';\n", f.Nonce, f.Nonce)
+		f.Line = 2
+	case "chain-ml-prop":
+		f.Nonce = "noprop_" + n
+		f.Text = fmt.Sprintf("echo $v0\n%s->%s;\n", in, f.Nonce)
+		f.Line, f.Span = 0, 1 // the property fetch `$v0 ⏎ ->name` starts on line 0 and is detected on line 1
+	case "generator-throw":
+		f.Nonce = "boom-" + n
+		f.Text = fmt.Sprintf("function gen%s() {\n%syield 1;\n%sthrow new Exception(\"%s\");\n}\nforeach (gen%s() as $gv) { }\n", n, in, in, f.Nonce, n)
+		f.Line = 2
 	case "eof-class":
 		f.Parse, f.AtEOF = true, true
 		f.Text = "class\n"
@@ -396,6 +434,9 @@ func (p *program) render2() (src string, faultLine, faultLineMax int) {
 	}
 	src = sb.String()
 	faultLineMax = faultLine
+	if p.Fault != nil {
+		faultLineMax += p.Fault.Span
+	}
 	if p.Fault != nil && p.Fault.AtEOF {
 		faultLineMax = strings.Count(src, "\n") + 1
 	}
